@@ -1,9 +1,155 @@
 import UvModel.DriverUtil
-/-! line-protocol driver modes for C09 (stub: no modes yet) -/
+import UvModel.Async
+/-! line-protocol driver for C09 (`uvdriver async`); the other side is harness/c09_sched.c.
+
+input:  `cfg nh=<n> close=<h,..|-> senders=<h,h;h|-> sig=<t:victim,..|->`   victim = `l` or a sender index
+        `run`            back to the initial state of the configuration
+        `at <d>`         back to the state after d actions of the current run (stateless DFS backtracking)
+        `a <tok>`        tok = s<t> (sender t: begin its next send, or next atomic op) | l | c<h> | f
+output: one line per input line: `a <tok> :: <effect> :: <state>`  -/
 namespace Drivers.C09
-open UvModel.DriverUtil
+open UvModel.DriverUtil UvModel.Async
+
+structure Cfg where
+  nh : Nat := 0
+  closable : List Nat := []
+  progs : List (List Nat) := []
+  sig : List (Nat × Option Nat) := []   -- (handler sender, victim: none = loop thread)
+
+structure DS where
+  s : State
+  k : List Nat    -- per sender: index of its next send
+
+structure D where
+  cfg : Cfg := {}
+  stack : List DS := []   -- head = current state
+
+def natList (s : String) : List Nat :=
+  if s = "-" ∨ s = "" then [] else (s.splitOn ",").map nat!
+
+def parseSig (p : String) : Nat × Option Nat :=
+  match p.splitOn ":" with
+  | [t, "l"] => (nat! t, none)
+  | [t, x] => (nat! t, some (nat! x))
+  | _ => (0, none)
+
+def parseCfg (ws : List String) : Cfg :=
+  ws.foldl (fun c w =>
+    match w.splitOn "=" with
+    | ["nh", v] => { c with nh := nat! v }
+    | ["close", v] => { c with closable := natList v }
+    | ["senders", v] => { c with progs := if v = "-" then [] else (v.splitOn ";").map natList }
+    | ["sig", v] => { c with sig := if v = "-" then [] else (v.splitOn ",").map parseSig }
+    | _ => c) {}
+
+def initDS (c : Cfg) : DS := { s := init c.nh c.progs.length, k := c.progs.map fun _ => 0 }
+
+def spcName : SPc → String
+  | .idle => "idle" | .load => "load" | .inc => "inc" | .xchg => "xchg" | .write => "write" | .dec => "dec"
+
+def retName : LRet → String
+  | .idle => "idle" | .inCb h => s!"cb{h}"
+
+def lpcName : LPc → String
+  | .idle => "idle" | .drain => "drain" | .scan h => s!"scan{h}" | .inCb h => s!"cb{h}"
+  | .closeStore h r => s!"store{h}/{retName r}" | .closeSpin h r => s!"spin{h}/{retName r}"
+
+def listStr (l : List Nat) : String := "[" ++ ",".intercalate (l.map toString) ++ "]"
+
+def busyThreads (d : DS) : List Nat :=   -- senders in the middle of a send
+  (List.range d.s.snd.length).filter fun t => (d.s.snd[t]?.getD ({} : Sender)).pc ≠ .idle
+
+/-- thread `v` (none = loop) is interrupted by a signal handler that has not returned yet -/
+def interrupted (c : Cfg) (d : DS) (v : Option Nat) : Bool :=
+  c.sig.any fun (t, w) => w == v && (busyThreads d).contains t
+
+def enabledToks (c : Cfg) (d : DS) : List String :=
+  let s := d.s
+  let snds := (List.range s.snd.length).filter fun t =>
+    let x := s.snd[t]?.getD ({} : Sender)
+    (if x.pc = .idle then d.k.getD t 0 < (c.progs.getD t []).length else true) && !interrupted c d (some t)
+  let lok := !interrupted c d none
+  snds.map (fun t => s!"s{t}")
+    ++ (if lok && enabled s .loop then ["l"] else [])
+    ++ ((c.closable.filter fun h => lok && enabled s (.close h)).map fun h => s!"c{h}")
+    ++ (if lok && enabled s .closeCbs && (List.range s.nh).any (fun h => (s.hs h).unlinked && !(s.hs h).freed) then ["f"] else [])
+
+def stateStr (c : Cfg) (d : DS) : String :=
+  let s := d.s
+  let hs := (List.range s.nh).map fun h =>
+    let v := s.hs h
+    let fl := (if v.closing then "c" else "-") ++ (if v.unlinked then "u" else "-") ++ (if v.freed then "f" else "-")
+    if v.freed then s!"h{h}:freed,pub={v.pub},seen={v.seen},cb={v.cbs},x={v.x01}"
+    else s!"h{h}:p={v.pending},b={v.busy},{fl},pub={v.pub},seen={v.seen},cb={v.cbs},x={v.x01}"
+  let ts := (List.range s.snd.length).map fun t =>
+    let x := s.snd[t]?.getD ({} : Sender)
+    s!"t{t}:{spcName x.pc},h{x.h},k{d.k.getD t 0},q{x.seq}"
+  s!"efd={s.efd} lpc={lpcName s.lpc} q={listStr s.queue} hl={listStr s.handles} | "
+    ++ " ".intercalate hs ++ " | " ++ " ".intercalate ts ++ " | en=" ++ ",".intercalate (enabledToks c d)
+
+/-- apply one token; returns the effect text -/
+def applyTok (c : Cfg) (d : DS) (tok : String) : Option (DS × String) :=
+  if !(enabledToks c d).contains tok then none else
+  let s := d.s
+  let arg := nat! (tok.drop 1).toString
+  if tok = "l" then
+    let eff := match s.lpc with
+      | .idle => "wake"
+      | .drain => "drain"
+      | .scan h => if (s.hs h).pending = 0 then s!"scan h{h} =0" else s!"scan h{h} =1 cb"
+      | .inCb h => s!"cbret h{h}"
+      | .closeStore h _ => s!"store h{h}"
+      | .closeSpin h _ => s!"spin h{h} unlink"
+    (step? s .loop).map fun s' => ({ d with s := s' }, eff)
+  else if tok = "f" then
+    let done := (List.range s.nh).filter fun h => (s.hs h).unlinked && !(s.hs h).freed
+    (step? s .closeCbs).map fun s' => ({ d with s := s' }, "closecb " ++ " ".intercalate (done.map fun h => s!"h{h}"))
+  else if tok.startsWith "c" then
+    (step? s (.close arg)).map fun s' => ({ d with s := s' }, s!"close h{arg}")
+  else if tok.startsWith "s" then
+    let t := arg
+    let x := s.snd[t]?.getD ({} : Sender)
+    match x.pc with
+    | .idle =>
+      let k := d.k.getD t 0
+      let h := (c.progs.getD t []).getD k 0
+      let d' := { d with k := d.k.set t (k + 1) }
+      if (s.hs h).closing then some (d', s!"skip h{h}")   -- the user does not start a send on a handle it has closed
+      else (step? s (.begin t h)).map fun s' => ({ d' with s := s' }, s!"begin h{h} seq={(s'.snd[t]?.getD ({} : Sender)).seq}")
+    | pc =>
+      let hv := s.hs x.h
+      let eff := match pc with
+        | .load => if hv.pending ≠ 0 then "load=1 ret" else "load=0"
+        | .inc => "inc"
+        | .xchg => s!"xchg={hv.pending}"
+        | .write => "write"
+        | .dec => "dec ret"
+        | .idle => ""
+      (step? s (.snd t)).map fun s' => ({ d with s := s' }, eff)
+  else none
+
+def stepLine (d : D) : List String → D × List String
+  | [] => (d, [])
+  | "cfg" :: ws =>
+    let c := parseCfg ws
+    ({ cfg := c, stack := [initDS c] }, ["cfg " ++ " ".intercalate ws])
+  | ["run"] =>
+    let i := initDS d.cfg
+    ({ d with stack := [i] }, ["run :: " ++ stateStr d.cfg i])
+  | ["at", n] =>
+    let keep := nat! n + 1
+    if keep ≤ d.stack.length then ({ d with stack := d.stack.drop (d.stack.length - keep) }, [s!"at {n}"])
+    else (d, ["bad-op"])
+  | ["a", tok] =>
+    match d.stack with
+    | [] => (d, ["bad-op"])
+    | cur :: _ =>
+      match applyTok d.cfg cur tok with
+      | none => (d, [s!"a {tok} :: not-enabled"])
+      | some (cur', eff) => ({ d with stack := cur' :: d.stack }, [s!"a {tok} :: {eff} :: {stateStr d.cfg cur'}"])
+  | _ => (d, ["bad-op"])
 
 /-- (mode name, action).  `uvdriver <mode>` runs the action (normally `runLines init step`). -/
-def modes : List (String × IO Unit) := []
+def modes : List (String × IO Unit) := [("async", runLines ({} : D) stepLine)]
 
 end Drivers.C09
